@@ -2540,6 +2540,17 @@ func positionsReadBeforeStrip(r *an.Run, rule string) {
 			if w == nil || !writersAll[w] || w == f {
 				continue
 			}
+			// only hand-overs of a whole section count: a helper of the splitter that is given one line
+			// to strip is part of the strip itself, and the splitter reads the adjusted position on purpose
+			whole := false
+			for _, a := range c.Common().Args {
+				if sl, ok := a.Type().Underlying().(*types.Slice); ok && strings.HasSuffix(an.ShortType(sl.Elem()), "section.Line") {
+					whole = true
+				}
+			}
+			if !whole {
+				continue
+			}
 			n++
 			// reads of line positions in f that can execute after this call
 			after := an.ReachFromSuccs(c.Block(), nil)
